@@ -387,8 +387,13 @@ def oracle_step(cls, histories, pw, idA):
                     return K[c](pw, idSymmetric=idA, params=params, entropy_f=e), e
                 return K[c](pw, idA=idA, idB=b"", params=params, entropy_f=e), e
             inst, ent = mk(cls, x0)
-            peer, _ = mk(pc, 7)
-            pmsg = peer.start()
+            # the honest peer message must not be the element this instance itself sends (on an 11-element group that
+            # coincidence is likely and would legitimately end in ReflectionThwarted, which the automaton does not model)
+            own_probe = mk(cls, x0)[0].start()
+            for y_ in (7, 8, 9, 3, 2, 6):
+                pmsg = mk(pc, y_ % qq)[0].start()
+                if pmsg[1:] != own_probe[1:]:
+                    break
             state = (False, False, False)
             own = None
             scalar = None
